@@ -287,7 +287,8 @@ func finish(c *core.Ctx, label string, x *rxRig, sent int, limit int, wit map[st
 	}
 	if !ok {
 		if frozen {
-			c.Violation("C13:"+label+":stalled", fmt.Sprintf("handled %d of %d messages, then nothing moved for 30 s (deadlock in back-pressure?)", handled, sent), wit)
+			wit["parked_goroutines"] = protorig.LastParked
+			c.Violation("C13:"+label+":stalled", fmt.Sprintf("handled %d of %d messages, then nothing moved for 30 s and every library goroutine is parked (deadlock in back-pressure?)", handled, sent), wit)
 		} else {
 			c.Inconclusive(label + ": watchdog")
 		}
